@@ -356,7 +356,9 @@ def ray_bounds(ray_origins, ray_directions, bounds, buffer_dist=1e-5):
     """
 
     ray_origins = np.asanyarray(ray_origins, dtype=np.float64)
-    ray_directions = np.asanyarray(ray_directions, dtype=np.float64)
+    # use unit directions so the line parameter `t` is a
+    # distance and can be compared with `buffer_dist`
+    ray_directions = util.unitize(np.asanyarray(ray_directions, dtype=np.float64))
 
     # bounding box we are testing against
     bounds = np.asanyarray(bounds)
